@@ -13,6 +13,8 @@ def check(p):
 for W in sys.argv[1:]:
     pid = 'C' + W[1:]
     for k, (v, w) in enumerate((('a', 'q'), ('b', 'r'))):
+        if not os.path.exists('/tmp/wt/%s/_seed/confirm_%s.txt' % (W, v)):
+            print(pid, v, 'not delivered'); continue
         conf = open('/tmp/wt/%s/_seed/confirm_%s.txt' % (W, v)).read()
         ok = 'demo_orig exit=0' in conf and '176/176' in conf and 'demo_changed exit=1' in conf
         if not ok:
@@ -33,6 +35,9 @@ for W in sys.argv[1:]:
         shutil.copy(P, dst + '/patch.diff')
         shutil.copy('/tmp/wt/%s/_seed/demo_%s.py' % (W, v), dst + '/demo.py')
         shutil.copy('/tmp/wt/%s/_seed/NOTES.md' % W, dst + '/NOTES.md')
+        for h in os.listdir('/tmp/wt/%s/_seed' % W):  # helper modules a demonstration imports
+            if h.endswith('.py') and not re.match(r'demo_[ab]\.py$', h):
+                shutil.copy('/tmp/wt/%s/_seed/%s' % (W, h), dst + '/' + h)
         meta = {
             'property_broken': pid, 'variant': w,
             'origin': 'independent sub-agent given only the property text and a scratch worktree of /repo (nothing from /verif)',
